@@ -126,6 +126,8 @@ type World struct {
 
 	// ReadFaults: reading the named file returns its first N bytes and then an I/O error.
 	ReadFaults map[string]int `json:"-"`
+	// StatFaults: Filesystem.Stat on the named path fails (a metadata call that is not available or breaks off), while the file opens and reads fine.
+	StatFaults map[string]bool `json:"-"`
 
 	// per-run state (not part of the persistent state)
 	Log      []WriteRec `json:"-"`
@@ -253,7 +255,12 @@ func (f *faultFile) Read(p []byte) (int, error) {
 	return n, err
 }
 
-func (w *World) Stat(name string) (os.FileInfo, error) { return w.view().Stat(name) }
+func (w *World) Stat(name string) (os.FileInfo, error) {
+	if w.StatFaults[name] {
+		return nil, &fs.PathError{Op: "stat", Path: name, Err: errors.New("input/output error (injected)")}
+	}
+	return w.view().Stat(name)
+}
 
 func (w *World) WriteFile(name string, content []byte) error {
 	if w.WriteDelay > 0 {
